@@ -126,6 +126,7 @@ func (f *sessionFam) endPhase(w *World) {
 			s.close()
 		}
 	}
+	w.closeWT()
 	simrt.Settle()
 	simrt.Sleep(f.grace)
 	f.drained = true
